@@ -10,11 +10,11 @@ import "potano.layercake/fs"
 
 // VerifEntry is an exported image of lineInfo.
 type VerifEntry struct {
-	Ltype                                                       uint8
-	Name, Source, Target                                        string
-	Gid, Uid, AndMask, OrMask, Major, Minor                     uint32
-	Devtype                                                     byte
-	HasWildcard, HasGid, HasUid, HasDev, HasPerm, SkipIfAbsent  bool
+	Ltype                                                      uint8
+	Name, Source, Target                                       string
+	Gid, Uid, AndMask, OrMask, Major, Minor                    uint32
+	Devtype                                                    byte
+	HasWildcard, HasGid, HasUid, HasDev, HasPerm, SkipIfAbsent bool
 }
 
 func verifEntry(e lineInfo) VerifEntry {
